@@ -32,6 +32,7 @@ func init() {
 	registerReplay("TestC10_TransformSelfReference", replay)
 	registerReplay("TestC10_EmptyResults", replay)
 	registerReplay("TestC10_FunctionValuesAndStrings", replay)
+	registerReplay("TestC10_ContextForms", replay)
 }
 
 var c10EdgeNumbers = []string{"1.7e308", "-1.7e308", "1e308", "-1e308", "8.9e307", "1.7976931348623157e308", "5e-324", "-5e-324", "2.2250738585072014e-308", "1", "-1", "0", "9007199254740993", "1e-320", "3", "0.5"}
@@ -201,7 +202,11 @@ func TestC10_FunctionValuesAndStrings(t *testing.T) {
 		return !(m != "" && rec.FailNow(c, m) >= 6)
 	}
 	for _, f := range fns {
-		for _, w := range []string{`X`, `[X]`, `{"f": X}`, `[1, [X, "s"], {"k": [X]}]`, `[X, X]`, `$append([X], 1)`} {
+		for _, w := range []string{`X`, `[X]`, `{"f": X}`, `[1, [X, "s"], {"k": [X]}]`, `[X, X]`, `$append([X], 1)`,
+			// function values passing through the array and object functions
+			`$distinct([X, 1, "a", 1, X])`, `$reverse([1, X])`, `$sort([X, X], function($l, $r){false})`, `$zip([X], [1])`, `$shuffle([X])`, `$filter([X, 1], function($v){true})`,
+			`$map([X], function($v){$v})`, `$reduce([[X], [1]], $append)`, `$each({"a": X}, function($v){$v})`, `$sift({"a": X, "b": 1}, function($v){true})`, `$merge([{"a": X}, {"b": 1}])`,
+			`$spread({"a": X})`, `$lookup({"a": X}, "a")`, `$single([X], function($v){true})`, `({"a": X} ~> |$|{"b": 1}|)`, `[X][0]`, `{"a": X}.a`, `$append(X, X)`} {
 			if !run(strings.ReplaceAll(w, "X", f), `{"a":{"b":2}}`) {
 				return
 			}
@@ -222,6 +227,56 @@ func TestC10_FunctionValuesAndStrings(t *testing.T) {
 		}
 	}
 	rec.Exhaustive("function_values_and_strings", n)
+}
+
+// c10ContextForms: every built-in in its context-defaulting form, with the
+// explicit form it stands for.
+var c10ContextForms = [][2]string{
+	{`$string()`, `$string($)`}, {`$length()`, `$length($)`}, {`$uppercase()`, `$uppercase($)`}, {`$lowercase()`, `$lowercase($)`}, {`$trim()`, `$trim($)`},
+	{`$number()`, `$number($)`}, {`$abs()`, `$abs($)`}, {`$floor()`, `$floor($)`}, {`$ceil()`, `$ceil($)`}, {`$round()`, `$round($)`}, {`$sqrt()`, `$sqrt($)`},
+	{`$boolean()`, `$boolean($)`}, {`$not()`, `$not($)`}, {`$keys()`, `$keys($)`}, {`$spread()`, `$spread($)`}, {`$type()`, `$type($)`}, {`$formatBase()`, `$formatBase($)`},
+	{`$base64encode()`, `$base64encode($)`}, {`$base64decode()`, `$base64decode($)`}, {`$encodeUrl()`, `$encodeUrl($)`}, {`$encodeUrlComponent()`, `$encodeUrlComponent($)`},
+	{`$decodeUrl()`, `$decodeUrl($)`}, {`$decodeUrlComponent()`, `$decodeUrlComponent($)`}, {`$fromMillis()`, `$fromMillis($)`}, {`$toMillis()`, `$toMillis($)`},
+	{`$sift(function($v){true})`, `$sift($, function($v){true})`},
+	{`$substring(1)`, `$substring($, 1)`}, {`$substring(1, 2)`, `$substring($, 1, 2)`}, {`$substringBefore("b")`, `$substringBefore($, "b")`}, {`$substringAfter("b")`, `$substringAfter($, "b")`},
+	{`$pad(5)`, `$pad($, 5)`}, {`$pad(5, "é-")`, `$pad($, 5, "é-")`}, {`$contains("b")`, `$contains($, "b")`}, {`$contains(/b/)`, `$contains($, /b/)`},
+	{`$split("b")`, `$split($, "b")`}, {`$split(/b/, 1)`, `$split($, /b/, 1)`}, {`$match(/b/)`, `$match($, /b/)`}, {`$match(/b/, 1)`, `$match($, /b/, 1)`},
+	{`$replace("b", "c")`, `$replace($, "b", "c")`}, {`$replace(/b/, "c", 1)`, `$replace($, /b/, "c", 1)`}, {`$formatNumber("0.0")`, `$formatNumber($, "0.0")`}, {`$power(2)`, `$power($, 2)`},
+}
+
+// TestC10_ContextForms: a built-in called in its context-defaulting form gives
+// what its explicit form gives - in particular 'no value' (ErrUndefined), not a
+// value made from nothing, when there is no context item.
+func TestC10_ContextForms(t *testing.T) {
+	rec := begin(t, "C10", "enumerated: 44 built-in calls in context-defaulting form against their explicit form f($, ...), evaluated with no input (Eval(nil) / EvalBytes(\"null\")), in a path step over an absent member, in the value of a grouping over nothing, and with 6 context items (string, number, boolean, array, object, function-free values); oracle: both forms have the same outcome, and every C10 predicate (ErrUndefined iff no value, $exists coherence, Eval = EvalBytes) holds for each; non-trivial = all; distinct by program + input")
+	defer finish(t, rec)
+	inputs := []string{``, `null`, `"abc"`, `4`, `true`, `["abc", "b"]`, `{"a": "abc", "b": 2}`, `{}`}
+	wraps := []string{`X`, `zz.X`, `zz{"k": X}`, `[X]`, `$.X`, `(X)`}
+	n := 0
+	for _, pair := range c10ContextForms {
+		for _, w := range wraps {
+			for _, in := range inputs {
+				n++
+				t1, t2 := strings.ReplaceAll(w, "X", pair[0]), strings.ReplaceAll(w, "X", pair[1])
+				c1, c2 := c10Case{Text: t1, Input: in, Det: !strings.Contains(pair[0], "each") && !strings.Contains(pair[0], "sift") && !strings.Contains(pair[0], "keys") && !strings.Contains(pair[0], "spread")}, c10Case{Text: t2, Input: in}
+				c2.Det = c1.Det
+				m, info := c10Run(c1)
+				rec.Case(t1+"|"+in, true, func() interface{} {
+					return map[string]interface{}{"expr": t1, "input": in, "outcome": info.kind}
+				})
+				rec.Class("outcome_" + info.kind)
+				if m == "" {
+					if m2, info2 := c10Run(c2); m2 == "" && info2.kind != info.kind && info.kind != port.KPanic && info2.kind != port.KPanic {
+						m = fmt.Sprintf("%s gives %s but its explicit form %s gives %s (input %q)", t1, info.kind, t2, info2.kind, in)
+					}
+				}
+				if m != "" && rec.FailNow(c1, m) >= 6 {
+					return
+				}
+			}
+		}
+	}
+	rec.Exhaustive("context_forms_x_wrappers_x_inputs", n)
 }
 
 func replaceAllStr(s, old, new string) string {
